@@ -2085,6 +2085,14 @@ def _helper_args(tree: ast.Module) -> dict:
         body = body[1:]
     if not body:
         raise TranslateError('EntityDef.parse: PAREN_ARGS branch is empty')
+    # `pieces = tok.split(','); args = [p.strip() for p in pieces]`: a single-use local for the split is inlined
+    if (len(body) > 1 and isinstance(body[0], ast.Assign) and len(body[0].targets) == 1 and isinstance(body[0].targets[0], ast.Name)
+            and isinstance(body[0].value, ast.Call) and isinstance(body[0].value.func, ast.Attribute) and body[0].value.func.attr == 'split'
+            and isinstance(body[1], (ast.Assign, ast.AnnAssign, ast.For))
+            and sum(_loads(x, body[0].targets[0].id) for x in body[1:]) == 1 and _loads(body[1], body[0].targets[0].id) == 1
+            and body[0].targets[0].id not in set().union(*[_stores(x) for x in body[1:]])):
+        import copy as _copy
+        body = [_subst(_copy.deepcopy(body[1]), body[0].targets[0].id, body[0].value)] + body[2:]     # type: ignore[list-item]
     st = body[0]
     strip, filt, sep, var_args = False, 'FKeep', ',', ''
     rest_from = 1
@@ -2336,10 +2344,16 @@ class _CopyPlan:
             for name, _, ann, _ in self.sh.fields(cls):
                 if name == e.attr:
                     return self.sh.shape(ann)
+        if isinstance(e, ast.Attribute) and isinstance(e.value, ast.Name) and env.get(e.value.id, ('any',))[0] == 'obj':
+            for name, _, ann, _ in self.sh.fields(env[e.value.id][1]):
+                if name == e.attr:
+                    return self.sh.shape(ann)
         return ('any',)
 
     def shared(self, e: ast.AST, env: dict[str, tuple]) -> bool:
-        return (isinstance(e, ast.Name) and e.id in env) or (isinstance(e, ast.Attribute) and _is(e.value, 'self'))
+        """an expression that denotes an existing object: a bound element, `self.f`, or an attribute of a bound element"""
+        return (isinstance(e, ast.Name) and e.id in env) or (isinstance(e, ast.Attribute) and (
+            _is(e.value, 'self') or (isinstance(e.value, ast.Name) and e.value.id in env)))
 
     def obj_copy(self, cname: str) -> str:
         """The copy() method of an attrs class: a single `return Cls(args)`."""
